@@ -75,15 +75,20 @@ def confirm(src, sid):
             elif os.path.isdir(tgt) and copy_to.rstrip("/").split("/")[-1].startswith("zz"):
                 shutil.rmtree(tgt)
         pk = touched_pkgs(os.path.join(src, "patch.diff"))
-        pk += ["./test/unit/..."]
-        # test/unit and blockchain contain load-sensitive / flaky tests on the unchanged tree too
-        # (async netsync goroutine panic, TestCheckTimeOfReword wall-clock assertion): up to 3 attempts.
-        for attempt in range(3):
-            rct, outt = sh("go test -vet=off -count=1 -skip TestCheckTimeOfReword " + " ".join(sorted(set(pk))), cwd=repo, timeout=3000)
-            if rct == 0:
-                break
-        fails = [l for l in outt.splitlines() if l.startswith("--- FAIL") or l.startswith("FAIL")]
-        log["existing_tests"] = {"rc": rct, "attempts": attempt + 1, "pkgs": pk, "fail_lines": fails[:20]}
+        # touched packages: up to 2 attempts; ./test/unit separately, up to 8 attempts: it fails on the
+        # UNCHANGED tree in roughly every second run (an async goroutine of an unrelated test panics with a
+        # nil TxPool), and blockchain's TestCheckTimeOfReword is a wall-clock assertion.
+        def attempt(cmd, n):
+            for a in range(n):
+                rc, out = sh(cmd, cwd=repo, timeout=3000)
+                if rc == 0:
+                    return rc, out, a + 1
+            return rc, out, n
+        rct, outt, at1 = attempt("go test -vet=off -count=1 -skip TestCheckTimeOfReword " + " ".join(sorted(set(pk))), 2)
+        rcu, outu, at2 = attempt("go test -vet=off -count=1 ./test/unit/...", 8)
+        fails = [l for l in (outt + outu).splitlines() if l.startswith("--- FAIL") or l.startswith("FAIL")]
+        log["existing_tests"] = {"rc": rct or rcu, "attempts_pkgs": at1, "attempts_test_unit": at2, "pkgs": pk + ["./test/unit/..."], "fail_lines": fails[:20]}
+        rct = rct or rcu
         ok = rc0 == 0 and rcb == 0 and rc1 != 0 and rct == 0
         return ok, log
     finally:
